@@ -37,7 +37,7 @@ def cases(tier, seed):
     out = []
     for n in range(1, 65):
         for crc in ("granted", "refused", "not-requested"):
-            D = (2 if n <= 22 else 1) if tier == "quick" else 2
+            D = (2 if n <= 22 else 1) if tier == "quick" else (3 if n <= 15 else 2)
             out.append({"n": n, "crc": crc, "D": D, "seed": seed})
     big = [888, 889, 890] if tier == "quick" else [888, 889, 890, 1777, 1778, 1779, 10000]
     for n in big:
